@@ -263,6 +263,7 @@ func (l *Ledger) Finish(p *Prog, tier string, seed int, start time.Time, verifDi
 		case Undecided:
 			bad++
 			fmt.Printf("UNDECIDED rule=%s key=%s at %s: %s\n", o.Rule, o.Key, o.Pos, o.Why)
+			fmt.Printf("VIOLATION property=%s replay=%s#%s\n", l.Prop, evPath, o.Key)
 		}
 	}
 	// samples: a few obligations of each status
